@@ -28,5 +28,10 @@ func main() {
 		fmt.Fprintf(os.Stderr, "unknown check %q\n", os.Args[1])
 		os.Exit(2)
 	}
+	for i, a := range os.Args {
+		if a == "--replay" && i+1 < len(os.Args) {
+			os.Exit(replayFile(os.Args[1], os.Args[i+1]))
+		}
+	}
 	os.Exit(fn(os.Args[2:]))
 }
